@@ -9,7 +9,9 @@ import (
 	"bufio"
 	"bytes"
 	"errors"
+	"runtime"
 	"sort"
+	"sync"
 )
 
 func vHex(b []byte) string {
@@ -207,4 +209,100 @@ func VD_C15_control_flow() (out string) {
 	}
 	assert(len(out) == 0)
 	return out + "unreachable"
+}
+
+// ---- cooperative goroutines (engine: sched=coop; natively: the Go runtime). The printed result does not depend on
+// the schedule, so both executions must agree. ----
+
+//verif:validate C15
+func VD_goroutines_coop() string {
+	out := ""
+	// 1. unbuffered rendezvous, range over a closed channel, WaitGroup
+	ch := make(chan int)
+	res := make(chan int, 16)
+	var wg sync.WaitGroup
+	for w := 0; w < 3; w++ {
+		wg.Add(1)
+		go func(w int) {
+			defer wg.Done()
+			for x := range ch {
+				res <- x * (w*0 + 2)
+			}
+		}(w)
+	}
+	for i := 1; i <= 6; i++ {
+		ch <- i
+	}
+	close(ch)
+	wg.Wait()
+	close(res)
+	sum := 0
+	for x := range res {
+		sum += x
+	}
+	out += vU(uint64(sum)) + ";"
+	// 2. select over two producers with a stop channel, mutex-protected counter
+	a, b, stop := make(chan int), make(chan int, 2), make(chan struct{})
+	var mu sync.Mutex
+	cnt := 0
+	done := make(chan int)
+	go func() {
+		got := 0
+		for {
+			select {
+			case x := <-a:
+				got += x
+			case x := <-b:
+				got += 10 * x
+			case <-stop:
+				done <- got
+				return
+			}
+			mu.Lock()
+			cnt++
+			mu.Unlock()
+		}
+	}()
+	for i := 1; i <= 3; i++ {
+		a <- i
+		b <- i
+	}
+	// both producers are consumed before stop can be observed: wait until the counter says so
+	for {
+		mu.Lock()
+		n := cnt
+		mu.Unlock()
+		if n == 6 {
+			break
+		}
+		runtime.Gosched()
+	}
+	close(stop)
+	out += vU(uint64(<-done)) + ";" + vU(uint64(cnt)) + ";"
+	// 3. a chain of goroutines passing a token through unbuffered channels
+	first := make(chan int)
+	in := first
+	for k := 0; k < 4; k++ {
+		nxt := make(chan int)
+		go func(in, out chan int) { out <- 1 + <-in }(in, nxt)
+		in = nxt
+	}
+	first <- 100
+	out += vU(uint64(<-in)) + ";"
+	// 4. non-blocking select takes default when nobody is ready, and a receive from a closed channel is ready
+	c := make(chan int)
+	select {
+	case <-c:
+		out += "recv;"
+	default:
+		out += "default;"
+	}
+	close(c)
+	select {
+	case _, ok := <-c:
+		out += "closed:" + vB(ok) + ";"
+	default:
+		out += "default;"
+	}
+	return out
 }
